@@ -455,6 +455,43 @@ def strace_run(caller, dest, size, ch, inject=None, timeout=120):
     return p.returncode, p.stdout.decode("utf-8", "replace"), p.stderr.decode("utf-8", "replace"), lines
 
 
+def strace_unsynced_renames(lines):
+    """From a system-call trace: the renames whose source file was written (through the descriptor it was last opened with)
+    after that descriptor's last fsync.  Returns (renames seen, [(src, dst), ...] offending)."""
+    import re
+
+    fd_path, dirty = {}, {}
+    seen, bad = 0, []
+    for ln in lines:
+        parts = ln.split(None, 1)
+        body = parts[1] if len(parts) > 1 and parts[0].isdigit() else ln
+        m = re.match(r'openat\([^,]+, "((?:[^"\\]|\\.)*)", ([A-Z_|0-9a-z]+)[^)]*\)\s*=\s*(\d+)', body)
+        if m:
+            fd_path[m.group(3)] = m.group(1)
+            if "O_TRUNC" in m.group(2) or "O_CREAT" in m.group(2):
+                dirty[m.group(1)] = dirty.get(m.group(1), False)
+            continue
+        m = re.match(r'write\((\d+),.*\)\s*=\s*(\d+)', body)
+        if m:
+            pth = fd_path.get(m.group(1))
+            if pth is not None and int(m.group(2)) > 0:
+                dirty[pth] = True
+            continue
+        m = re.match(r'fsync\((\d+)\)\s*=\s*0', body)
+        if m:
+            pth = fd_path.get(m.group(1))
+            if pth is not None:
+                dirty[pth] = False
+            continue
+        m = re.match(r'rename(?:at2?)?\((?:[^,"]+, )?"((?:[^"\\]|\\.)*)", (?:[^,"]+, )?"((?:[^"\\]|\\.)*)"[^)]*\)\s*=\s*0', body)
+        if m:
+            seen += 1
+            if dirty.get(m.group(1)):
+                bad.append((os.path.basename(m.group(1)), os.path.basename(m.group(2))))
+            dirty[m.group(2)] = dirty.pop(m.group(1), False)
+    return seen, bad
+
+
 def strace_cases(caller, size, tier, sess: Session, rng):
     fname = {"bytes": "out.bin", "text": "out.txt", "json": "out.json", "rewrite": "t1.jsonl", "rewrite-extend": "t1.jsonl"}[caller]
     with tmpdir("c08s_") as d0:
@@ -469,6 +506,11 @@ def strace_cases(caller, size, tier, sess: Session, rng):
         old_sha = sha(open(os.path.join(rd, fname), "rb").read())
         rc, out, err, lines = strace_run(caller, os.path.join(rd, fname), size + 3, "n")
         new_sha = sha(open(os.path.join(rd, fname), "rb").read())
+        # the documented order at system-call level: the staged file's data is fsynced before it is renamed into place
+        n_ren, unsynced = strace_unsynced_renames(lines)
+        sess.count("strace_renames_checked_for_fsync_before_rename", n_ren)
+        if unsynced:
+            sess.violation("staged-file-renamed-before-its-data-was-fsynced", {"caller": caller, "size": size, "level": "syscall"}, {"renames": unsynced[:3]})
         # index the syscalls after the marker
         seen_mark = False
         counts_before = {}
